@@ -299,12 +299,23 @@ class LoopCtl:
          exit_state(ctl)          dict: state after the loop (iteration count n)
     Names assigned in the body but not returned by the contract are poisoned."""
 
-    def __init__(self, run, ordinal, fname, spec, iterable, pre_state):
+    def __init__(self, run, ordinal, fname, spec, iterable, pre_state, inplace=()):
+        from .arrays import Arr
         self.run = run
         self.spec = spec
         self.fname = fname
         self.ordinal = ordinal
         self.iterable = iterable
+        # arrays the body only modifies in place: the contract sees a snapshot of the pre-loop contents (its closures may
+        # refer to it), the object itself receives the summarised contents at loop exit (see final)
+        self.inplace = set(inplace)
+        self.orig = {}
+        pre_state = dict(pre_state)
+        for k in self.inplace:
+            v = pre_state.get(k)
+            if isinstance(v, Arr):
+                self.orig[k] = v
+                pre_state[k] = v._s()
         self.pre = pre_state
         self.n = iterable.length()
         self.cur = None
@@ -384,7 +395,21 @@ class LoopCtl:
         raise EndPath()
 
     def final(self, names):
-        return self._pick(self.spec.exit_state(self), names)
+        """State after the loop.  A name whose object the body only modifies IN PLACE (subscript store, augmented
+        assignment: never rebound) still refers to the object it referred to before the loop: the summarised contents
+        are written into that object, so every other reference to it (the caller's array, when the loop sits in a
+        helper function) sees them, as in NumPy."""
+        from .arrays import Arr
+        st = dict(self.spec.exit_state(self))
+        for k in names:
+            pre, v = self.orig.get(k), st.get(k)
+            if isinstance(pre, Arr) and isinstance(v, Arr) and v is not pre and pre.ndim == v.ndim:
+                pre.axes, pre._fn = v.axes, v._fn
+                pre._memo = {}
+                pre.mutated = getattr(pre, "mutated", 0) + 1
+                sym.note_mutation(pre)
+                st[k] = pre
+        return self._pick(st, names)
 
 
 class RangeIter:
